@@ -632,6 +632,25 @@ int main(int argc, char **argv) {
     const long G = E + R;
     long gLo = 0, gHi = G;
     if (a.only >= 0) { gLo = a.only / 3; gHi = std::min(G, gLo + 1); }
+    if (a.mode == "findings") {
+        // Known-defect streams, NOT part of the default plan (the clean tree must stay quiet):
+        //  tag static-eq     : static vpsc::Solver on an acyclic system that contains equalities
+        //                      (the static solver ignores Constraint::equality and returns with
+        //                      unflagged equalities violated)
+        //  tag static-scaled : static vpsc::Solver with non-unit scales (Blocks::split copies posn
+        //                      between blocks of different ps.scale; refine() can then assert/throw)
+        for (long g = std::max(gLo, E); g < gHi; ++g) {
+            Problem p = genRandom(a.seed, g, thorough);
+            long k = 3 * g + 2;
+            if (!a.want(k) || hasCycle(p)) continue;
+            if (hasEquality(p)) p.tag = "static-eq";
+            else if (hasScale(p)) p.tag = "static-scaled";
+            else continue;
+            POp o = {p.staticSolve ? OP_SOLVE : OP_SATISFY, 0, 0.0};
+            runCase<VpscStatic>(k, p, (int) p.cons.size(), std::vector<POp>(1, o));
+        }
+        return 0;
+    }
     for (long g = gLo; g < gHi; ++g) {
         if (risky && g < E) continue;           // nothing is held back in the exhaustive block
         Problem p = (g < E) ? exh.make((uint64_t) g) : genRandom(a.seed, g, thorough);
